@@ -165,15 +165,19 @@ class ResultSet(dict[str, dict[Path, list[Result]]]):
 
     def __or__(self, other):
         result = ResultSet(super().__or__(other))
-        for k in self.keys() | other.keys():
-            result[k] = list_dict_or(self[k], other[k])
+        for k in result.keys():
+            result[k] = list_dict_or(self.get(k, {}), other.get(k, {}))
         return result
+
+    def __ior__(self, other):
+        self.update(self | other)
+        return self
 
 
 def list_dict_or(
     dictionary: dict[Any, list[Any]], other: dict[Any, list[Any]]
 ) -> dict[Path, list[Any]]:
     result_dict = other | dictionary
-    for k in other.keys() | dictionary.keys():
-        result_dict[k] = dictionary[k] + other[k]
+    for k in result_dict.keys():
+        result_dict[k] = dictionary.get(k, []) + other.get(k, [])
     return result_dict
